@@ -97,8 +97,33 @@ def check_case(case, ctx):
         # a stripped branch takes the capacity of its stem: compare under one uniform capacity
         ucap = case['caps'] if isinstance(case['caps'], int) else 16
         y0, y1 = run(delays=dz, caps=ucap), run(delays=dz, strip=True, reuse=case['c_reuse'], caps=ucap)
-        if not eq('strip', np.asarray(y1.s)[3:], np.asarray(y0.s)[3:], 'captured results with/without strip_forks (fork input delays zero)'):
-            return
+        ctx.count('pairs/strip')
+        if not np.array_equal(np.asarray(y1.s)[3:], np.asarray(y0.s)[3:]):
+            # open finding C06/fork-filters-zero-width-pulse: an evaluated fork is a BUF with zero delay, whose pulse filter removes
+            # non-increasing timestamp pairs that polarity-dependent delays can leave on its stem; a stripped fork passes them on.
+            # Attributed only if (i) such a pair exists on a fork input in the unstripped run and (ii) the same pair of runs with the
+            # delays made polarity independent (timestamps then strictly increase, C04) agrees.
+            finding = None
+            cu = np.asarray(y0.c)
+            nonmono = False
+            for li in fl:
+                loc, cap = int(y0.c_locs[li]), int(y0.c_caps[li])
+                for lane in range(n):
+                    _, ts, _ = W.decode_col(cu[loc:loc + cap, lane])
+                    if any(t1 <= t0 for t0, t1 in zip(ts, ts[1:])):
+                        nonmono = True
+            if nonmono:
+                dp = dz.copy()
+                dp[:] = dp[:, :1, :1]
+                p0, p1 = run(delays=dp, caps=ucap), run(delays=dp, strip=True, reuse=case['c_reuse'], caps=ucap)
+                if np.array_equal(np.asarray(p1.s)[3:], np.asarray(p0.s)[3:]):
+                    finding = 'fork-filters-zero-width-pulse'
+            idx = tuple(int(x[0]) for x in np.nonzero(np.asarray(y1.s)[3:] != np.asarray(y0.s)[3:]))
+            ctx.violation('config-pair/strip', f'captured results with/without strip_forks (fork input delays zero) differ at s[3:]{list(idx)}: '
+                          f'{np.asarray(y1.s)[3:][idx]} vs {np.asarray(y0.s)[3:][idx]}; non-increasing timestamps on a fork input: {nonmono}; caps={ucap} sims={n}; '
+                          f'{G.net_text(net)[:400]}', dict(case, pair='strip'), finding=finding, sig='strip-zero-width' if finding else 'config-pair/strip')
+            if finding is None:
+                return
         effective += int(len(y1.ops) != len(y0.ops))
         # (c) CPU vs GPU-kernel path
         g = run(cls='cuda', reuse=case['c_reuse'], strip=case['strip_forks'])
@@ -179,6 +204,14 @@ def check_case(case, ctx):
 
 
 def run(spec, ctx):
+    if spec['shard'] == 0:
+        # committed witness of the open finding (found by the thorough tier, seed 0)
+        import json, os
+        from .. import VERIF_DIR
+        with open(os.path.join(VERIF_DIR, 'witness', 'C06-fork-filters-zero-width-pulse.json')) as f:
+            wcase = json.load(f)['case']
+        wcase.pop('pair', None)
+        check_case(wcase, ctx)
     for i in range(spec['n']):
         rng = random.Random(f'C06/{spec["seed"]}/{spec["shard"]}/{i}')
         case = WC.gen_case(rng, max_gates=25)
